@@ -403,3 +403,58 @@ func TestVerifRaceConn(t *testing.T) {
 	}
 	wg.Wait()
 }
+
+// TestVerifRaceRelogon: application senders and state queries keep running while the peer logs out
+// and logs on again over the same connection (the Logon handler installs the negotiated settings
+// and starts a new pair of timers), several times.
+func TestVerifRaceRelogon(t *testing.T) {
+	st := memory.NewStorage()
+	f := newAcceptor(st, 1, 60, 50*time.Millisecond, "0")
+	f.logon("CLI", "SRV", 1, 1)
+	if !f.s.IsLogged() {
+		t.Fatal("fixture: not logged on")
+	}
+	var stop int32
+	var wg sync.WaitGroup
+	done := make(chan struct{})
+	wg.Add(1)
+	go func() {
+		defer wg.Done()
+		for {
+			select {
+			case <-f.h.Outgoing():
+			case <-done:
+				return
+			}
+		}
+	}()
+	for i := 0; i < 2; i++ {
+		wg.Add(1)
+		go func() {
+			defer wg.Done()
+			for atomic.LoadInt32(&stop) == 0 {
+				_ = f.s.Send(fixgen.CreateHeartbeat())
+				_ = f.s.IsLogged()
+				time.Sleep(time.Millisecond)
+			}
+		}()
+	}
+	seq := 2
+	for round := 0; round < 4; round++ {
+		lo := fixgen.CreateLogout()
+		setHdr(lo.Header(), "CLI", "SRV", seq)
+		seq++
+		_ = f.h.VerifServe(wire(lo))
+		time.Sleep(30 * time.Millisecond)
+		lg := fixgen.CreateLogon("0", 1+round%2)
+		setHdr(lg.Header(), "CLI", "SRV", seq)
+		seq++
+		_ = f.h.VerifServe(wire(lg))
+		time.Sleep(300 * time.Millisecond)
+	}
+	time.Sleep(1200 * time.Millisecond) // the timers of the last logon expire
+	atomic.StoreInt32(&stop, 1)
+	time.Sleep(50 * time.Millisecond)
+	close(done)
+	wg.Wait()
+}
